@@ -9,6 +9,7 @@ TRUST = ('trusted: library models (num-bigint as wide bit-vectors, Vec/slice/ite
 TECH = 'symbolic execution of rustc MIR (regenerated from /repo each run) + SMT (z3), bounded; counterexamples replayed natively'
 
 CLAIMS = {
+ 'C14': ('front-end kernels only: panic freedom decided by bounded symbolic execution of the real MIR, where every overflow, bounds check, unwrap/expect and unreachable is an explicit edge: parse_sexp on every tab-free byte string of <=4 (thorough 5) bytes (with error locations inside the text), binutils::assemble on every ASCII text of <=3 (4) bytes, sexp_from_stream on every byte string of <=4 (6) bytes, disassemble->assemble on atoms of <=3 (4) bytes, create_name_lookup_ on environments up to depth 70 (100). No panic edge is satisfiable on any explored path. Partial: compile/run/debug/REPL entry points and termination beyond the unrolling bounds are outside', 'DESIGN.md §4 C14'),
  'C02': ('mechanism lemma only: the CLVM-level rewrites of the modern optimiser (null_optimization, remove_double_apply with its three rules, brief_path_selection), chained exactly as Strategy23::post_codegen_output_optimize chains them, are executed from MIR on every program tree of <=4 (thorough 5) leaves over {nil, 1..9} and the meaning before/after is judged by clvmr run_program executed from clvmr\'s own MIR (one-directional: value preserved whenever the unoptimised program returns one); brief_path_selection additionally on f/r chains of length up to 8 (40) over symbolic paths. Partial: CSE, de-inlining, constant folding by execution, nil-env mode, cl22 partial evaluation, whole compilations are outside', 'DESIGN.md §4 C02'),
  'C03': ('mechanism lemma only: the classic compiler\'s symbol_table_for_tree (with inline::is_at_capture, NodePath::{new,add,first,rest,as_path}, compose_paths, casts) is executed from MIR on every parameter tree of <=3 (thorough 5) leaves with optional (@ name pattern) captures and on parameter lists up to 64 (70) long, for root paths 1 and 3 (and 2); every emitted (name, path) is resolved by clvmr traverse_path (its own MIR) and z3/concrete evaluation decides that it selects that name\'s position and is canonical. Partial: the CLVM-hosted stage-2 compiler, macros, inlining and the classic==cl21 sentence are outside', 'DESIGN.md §4 C03'),
  'C01': ('mechanism lemma only: codegen::create_name_lookup_ and compiler::is_at_capture are executed from MIR on every environment shape of <=4 (thorough 6) leaves, each optionally with an (@ name pattern) capture at any position, and on parameter-list spines up to depth 70 (100), with symbolic names; the path returned is resolved by clvmr traverse_path (its own MIR) on a value of that shape and z3 decides that it reaches a slot bound to the name, that an error means the name is unbound, and that no overflow/panic edge is reachable. Partial: desugaring, inlining, lambdas, constants, macros and dialects are outside; counterexamples are replayed by compiling and running (mod ARGS NAME)', 'DESIGN.md §4 C01'),
@@ -20,7 +21,7 @@ CLAIMS = {
  'C20': ('symbolic execution of the real table code from MIR (KW_PAIRS const, the six lazy_static KEYWORD_* initialisers, keyword_from_atom/to_atom, prims(), prim_map()) and of the real dispatchers (OriginalDialect::op from the repo, ChiaDialect::op from clvmr\'s MIR, with the flags DefaultProgramRunner uses per operators_version) on a symbolic 1-byte and a symbolic 4-byte opcode; z3 decides that every table opcode reaches an implementation, tables are mutually inverse per version, versions only add, and the modern primitive list agrees with the classic tables in both directions. Finite domain: same guarantee as exhaustive checking', 'DESIGN.md §4 C20'),
  'C07': ('bounded symbolic execution of the real convert_from_clvm_rs / convert_to_clvm_rs / both sha256tree functions / SExp::equal_to / == / impl Hash MIR: round trip and three-way hash agreement for every atom of 0..4 (thorough 0..9) bytes and every tree of <=3 (4) leaves with atoms of 0..2 (3) bytes in both integer modes; equality and Hash against encoding equality for every pair of atoms of 0..2 (3) bytes in every pair of spellings (fixed mode). SHA-256 is an injective uninterpreted function of its preimage', 'DESIGN.md §4 C07'),
  'C06': ('bounded differential symbolic execution: the real stepping evaluator (run, run_step, combine, choose_path, flatten_signed_int, convert_to_clvm_rs) against clvmr 0.16.2 traverse_path executed from clvmr\'s own MIR, for a program that is one atom in every spelling (Integer of 136 bits, Atom/QuotedString of 0..3 (thorough 0..6) arbitrary bytes, Nil) in every environment shape of <=3 (5) leaves. Partial: path lookup and the core-operator step function, not the operators delegated to clvmr', 'DESIGN.md §4 C06'),
- 'C04': ('two bounded symbolic checks of the real classic optimiser MIR. (1) the whole optimize_sexp (all eight rules, memo table, pattern matcher, sub_args, seems_constant; constant folding delegates to clvmr run_program executed from clvmr\'s MIR) on every program tree of <=3 (thorough 4) leaves over {nil, 1..9}: whenever clvmr returns v for the program, the optimiser accepts it and clvmr returns v for its output. (2) path_optimizer / match_sexp / NodePath / compose_paths / casts on every (OP ATOM) with OP any byte and ATOM any byte string of 0..9 (thorough 0..17) bytes. Partial: larger programs and other operators are outside', 'DESIGN.md §4 C04'),
+ 'C04': ('two bounded symbolic checks of the real classic optimiser MIR. (1) the whole optimize_sexp (all eight rules, memo table, pattern matcher, sub_args, seems_constant; constant folding delegates to clvmr run_program executed from clvmr\'s MIR) on every program tree of <=4 (thorough 5) leaves over {nil, 1..9}: whenever clvmr returns v for the program, the optimiser accepts it and clvmr returns v for its output. (2) path_optimizer / match_sexp / NodePath / compose_paths / casts on every (OP ATOM) with OP any byte and ATOM any byte string of 0..9 (thorough 0..17) bytes. Partial: larger programs and other operators are outside', 'DESIGN.md §4 C04'),
  'C08': ('bounded symbolic execution of the real codec MIR: int_from_bytes for every 0..9-byte string; sexp_from_stream for every input of <=4 (thorough <=6) bytes against a reference decoder of the format; sexp_to_stream + decode round trip for all trees <=3 (4) leaves with atoms of 0..2 (3) arbitrary bytes and 63/64-byte atoms; atom_size_blob for a symbolic 64-bit atom length (all five prefix classes and the error bound)', 'DESIGN.md §4 C08'),
 }
 
